@@ -235,6 +235,12 @@ def gen_spec(rng, audit_types=("CARD_COMPARISON", "ONEAUDIT", "POLLING"), n_cont
                 cd["tally_pool"] = new
         if ph_pool[0] == old:
             ph_pool[0] = new
+    if pooled_batches and rng.random() < 0.15:
+        # a batch label shared by pooled and unpooled cards (the Dominion reader labels batches, but flags cards by their
+        # counting group): the batch mean is over the flagged cards, and only they use it
+        for cd in cards:
+            if cd["pool"] and rng.random() < 0.3:
+                cd["pool"] = False
     restrict = False
     if rng.random() < 0.2:
         # contests that are on the cards but not under audit (most real cards carry some)
